@@ -689,8 +689,9 @@ func adjustForAnchors(pf prefilter.Prefilter, strategy Strategy, re *syntax.Rege
 	hasMultilineAnchor := hasMultilineLineAnchor(re)
 
 	if pf != nil && pf.IsComplete() {
-		if hasMultilineAnchor && !hasNonLineAnchors(re) {
-			// (?m)^ with complete literals and NO other anchors (\b, $):
+		if hasMultilineAnchor && !hasNonLineAnchors(re) && lineAnchorLeadsEveryBranch(re) {
+			// (?m)^ in front of every alternative, with complete literals and NO
+			// other anchors (\b, $):
 			// Use line-anchor wrapper — O(1) line-start check per candidate.
 			// This keeps IsComplete()=true so Teddy can return matches directly
 			// without expensive NFA verification.
@@ -721,6 +722,38 @@ func hasNonLineAnchors(re *syntax.Regexp) bool {
 		if hasNonLineAnchors(sub) {
 			return true
 		}
+	}
+	return false
+}
+
+// lineAnchorLeadsEveryBranch reports whether every match of the pattern has to
+// begin at a line start: (?m)^ is the first element of every alternative and
+// occurs nowhere else. Only then is "the literal occurs at a line start" the same
+// as "the pattern matches there". In `(?m)^foo|bar` the second alternative
+// matches anywhere, and in `(?m)foo^bar` the literal "foobar" never matches.
+func lineAnchorLeadsEveryBranch(re *syntax.Regexp) bool {
+	switch re.Op {
+	case syntax.OpBeginLine:
+		return true
+	case syntax.OpCapture:
+		return len(re.Sub) == 1 && lineAnchorLeadsEveryBranch(re.Sub[0])
+	case syntax.OpAlternate:
+		for _, sub := range re.Sub {
+			if !lineAnchorLeadsEveryBranch(sub) {
+				return false
+			}
+		}
+		return len(re.Sub) > 0
+	case syntax.OpConcat:
+		if len(re.Sub) == 0 || !lineAnchorLeadsEveryBranch(re.Sub[0]) {
+			return false
+		}
+		for _, sub := range re.Sub[1:] {
+			if hasAnchorAssertions(sub) {
+				return false
+			}
+		}
+		return true
 	}
 	return false
 }
